@@ -27,12 +27,12 @@ CHECKS = {
             "DESIGN.md §5 C04", "stepsim"),
     "C05": ("fault_enumeration",
             "deterministic simulation with crash-point enumeration: every durable-write boundary of block application on a real follower (nested depth 2), restart, seeded re-delivery order (or, in DA-driven families, the real RetrieveLoop + SyncLoop over a seeded DA layout), prefix-equality oracle",
-            "For seeded chains every durable-write boundary of the triggering block application (1-3 blocks applied at once) is a crash point and, for each, every boundary of the seeded re-delivery phase is a nested crash point; after every restart the image must have a proposer-identical block for every height up to the recorded chain height and a state for exactly that height; finally the follower must reach the proposer's chain. A third of the families are DA-driven: the chain lies on the simulated DA layer (header and data of a block at different heights, later headers below earlier data), the real RetrieveLoop and SyncLoop scan and apply it, crash points cut the durable writes of that phase, in-memory queues die with the process and the scan alone must bring the restarted node to the proposer's height. An eighth of the families are whole-node families: a real full node (node.FullNode with P2P client, go-header stores, DA retrieve, P2P store loops, sync, DA includer) follows a real sequencer node over a libp2p mocknet; its (k+1)-th durable write kills it, and restarted on the durable image it must stay up and reach the sequencer's height with an identical chain. Exhaustive over boundaries of the enumerated applications, sampled over chains.",
+            "For seeded chains every durable-write boundary of the triggering block application (1-3 blocks applied at once) is a crash point and, for each, every boundary of the seeded re-delivery phase is a nested crash point; after every restart the image must have a proposer-identical block for every height up to the recorded chain height and a state for exactly that height; finally the follower must reach the proposer's chain. In about a fifth of the event-driven families the write at the enumerated boundary is refused by the storage instead of the process being killed: the sync loop reports it, the node stops the orderly way (caches saved), is started again, and must reach the proposer's chain once everything was re-delivered and the proposer's next block arrived. A third of the families are DA-driven: the chain lies on the simulated DA layer (header and data of a block at different heights, later headers below earlier data), the real RetrieveLoop and SyncLoop scan and apply it, crash points cut the durable writes of that phase, in-memory queues die with the process and the scan alone must bring the restarted node to the proposer's height. An eighth of the families are whole-node families: a real full node (node.FullNode with P2P client, go-header stores, DA retrieve, P2P store loops, sync, DA includer) follows a real sequencer node over a libp2p mocknet; its (k+1)-th durable write kills it, and restarted on the durable image it must stay up and reach the sequencer's height with an identical chain. Exhaustive over boundaries of the enumerated applications, sampled over chains.",
             "Crash = process death with ordered durable writes and atomic batches.",
             "DESIGN.md §5 C05", "stepsim"),
     "C11": ("fault_enumeration",
             "deterministic simulation with crash-point enumeration: every durable-write boundary of a marked reap/production step in seeded tx-arrival histories with refusals; drain; ledger oracle (taken from mempool vs committed chain) and release-order oracle",
-            "Seeded histories of tx arrivals (incl. repeats), reaps, productions, restarts and kills with queue bound 1..8; one marked reap or production has every durable-write boundary enumerated as crash point; after a drain every distinct transaction the mempool ever handed to the node must be in a committed block, non-empty blocks must follow the sequencer's release order, and without crashes nothing is included more often than injected.",
+            "Seeded histories of tx arrivals (incl. repeats), reaps, productions (one in eight with an execution layer that refuses the block once, after which the node stops and restarts), restarts and kills with queue bound 1..8; one marked reap or production has every durable-write boundary enumerated as crash point; after a drain every distinct transaction the mempool ever handed to the node must be in a committed block, non-empty blocks must follow the sequencer's release order, and without crashes nothing is included more often than injected.",
             "Mempool is the execution double (non-draining GetTxs per interface contract). Two crash boundaries that lose a batch are genuine, unrepaired defects listed in known_findings.json.",
             "DESIGN.md §5 C11", "stepsim"),
     "C06": ("exploration",
@@ -47,7 +47,7 @@ CHECKS = {
             "DESIGN.md §5 C07", "stepsim"),
     "C08": ("exploration",
             "deterministic simulation: real aggregator with pending limit, real submission loops, simulated DA outages of finite length; refusal-legality oracle against the DA ledger; bounded liveness with an accepting DA",
-            "Seeded histories with limit 1..8, initial height 1..50, all-empty/mixed/all-non-empty chains and finite DA outages. A production step that declines is legal only while at least `limit` committed blocks still wait for DA acceptance (header or non-empty data); with an accepting DA every round must commit a block. One scenario in twelve runs the real aggregation loop (lazy or normal) together with the real submission loops as goroutines under the fake clock through an outage and a recovery; the idle chain must then grow at the sustainable rate. Sampling, not proof.",
+            "Seeded histories with limit 1..8, initial height 1..50, all-empty/mixed/all-non-empty chains and finite DA outages. A production step that declines is legal only while at least `limit` committed blocks still wait for DA acceptance (header or non-empty data); with an accepting DA every round must commit a block. One scenario in twelve runs the real aggregation loop (lazy or normal) together with the real submission loops as goroutines under the fake clock through an outage (answered with a generic error, one of the classified errors - timed out, in mempool, deadline, sequence error, a cancellation reported by the DA side - or a rotation of all) and a recovery; the idle chain must then grow at the sustainable rate. Sampling, not proof.",
             "Only outages are injected so that accepted and acknowledged coincide.",
             "DESIGN.md §5 C08", "stepsim"),
     "C03": ("exploration",
@@ -57,7 +57,7 @@ CHECKS = {
             "DESIGN.md §5 C03", "stepsim"),
     "C09": ("exploration",
             "deterministic simulation: real RetrieveLoop + RetrieveWithHelpers against a simulated DA with seeded contents (genuine + junk blobs, >100 per height) and per-height fetch outcome scripts; oracle over the DA call log and emitted events",
-            "Seeded DA contents over 8 heights from start height 0..20 with genuine blobs of a real proposer chain mixed with 6 kinds of junk, per-height outcome sequences (not-found claim, future, listing error, chunk error), three empty-height styles and seeded signals. The request log must examine heights in order from the start, leave a height only after success/confirmed-empty, retry after failure; every genuine item must be handed to sync with the height it was found at, nothing else; no panic, no stall, no busy loop. Sampling, not proof.",
+            "Seeded DA contents over 8 heights from start height 0..20 with genuine blobs of a real proposer chain mixed with 6 kinds of junk, per-height outcome sequences (not-found claim, future, listing error, chunk error, a correct answer that takes 31 s and ignores the caller's deadline), three empty-height styles and seeded signals. The request log must examine heights in order from the start, leave a height only after success/confirmed-empty, retry after failure; every genuine item must be handed to sync with the height it was found at, nothing else; no panic, no stall, no busy loop. Sampling, not proof.",
             "Junk excludes third-party self-consistent forgeries (C03). A DA never claims 'not found' for a height holding blobs.",
             "DESIGN.md §5 C09", "stepsim"),
     "C15": ("exploration",
@@ -72,7 +72,7 @@ CHECKS = {
             "DESIGN.md §5 C16", "stepsim"),
     "C17": ("exploration",
             "deterministic simulation: the real aggregation loop under the synctest fake clock with a recording publishBlock of seeded simulated duration and notifications at seeded instants; exact oracle on recorded start/end times",
-            "Block interval 10 ms-10 s, idle/block ratio 0.2-100, production durations 0-3x block interval, notifications incl. inside productions, lazy and normal mode, 20-500 block intervals per run. Every notification must be followed by a production start within one block interval (counted from the end of a production in flight), gaps between starts never below the block interval and never above idle(+duration)+block interval; normal mode one block per interval regardless of notifications. Sampling, not proof.",
+            "Block interval 10 ms-10 s, idle/block ratio 0.2-100, production durations 0-3x block interval, notifications incl. inside productions, lazy and normal mode, 20-500 block intervals per run; a fifth of the scenarios run the second incarnation of a node restarted on a chain with really produced blocks after 0-2 idle intervals of downtime (its start-up wait is judged: a block within one block interval of a notification, and in normal mode within one block interval of the start). Every notification must be followed by a production start within one block interval (counted from the end of a production in flight), gaps between starts never below the block interval and never above idle(+duration)+block interval; normal mode one block per interval regardless of notifications. Sampling, not proof.",
             "publishBlock replaced via hook; same-instant timer ties are resolved by the Go runtime's select (oracle holds for every choice; replay retries).",
             "DESIGN.md §5 C17", "stepsim"),
     "C19": ("fault_enumeration",
@@ -87,7 +87,7 @@ CHECKS = {
             "DESIGN.md §5 C20", "stepsim"),
     "C10": ("exploration",
             "deterministic simulation: seeded submit/next/restart/crash histories on the real single sequencer over a simulated journalled disk vs a FIFO model; porcupine linearizability check of concurrent histories whose interleaving at every datastore operation is decided by a seeded park-and-release scheduler",
-            "Seeded histories (identical contents, empty, foreign chain id, beyond the bound, restart = new sequencer on the durable image, crash cutting the durable write inside an operation) are checked operation by operation against a FIFO model with candidate sets for undetermined operations, "
+            "Seeded histories (identical contents, empty, foreign chain id, beyond the bound, restart = new sequencer on the durable image with the same, a smaller or a larger bound, crash cutting the durable write inside an operation, a datastore that refuses the write of a submission) are checked operation by operation against a FIFO model with candidate sets for undetermined operations, "
             "followed by restart-and-drain; per scenario one concurrent history (4 client tasks released one at a time at datastore operations by a seeded scheduler, shared and unique contents, then restart and drain) is checked with porcupine against the same model. Sampling, not proof.",
             "Simulated disk iterates in key order like badger; crash model is process death.",
             "DESIGN.md §5 C10", "stepsim"),
